@@ -1,6 +1,42 @@
-import SigmaVerif.Model.SStr
+import SigmaVerif.Model.Ser
+import SigmaVerif.Lemmas.C06Item
+import SigmaVerif.Lemmas.C06Det
+import SigmaVerif.Lemmas.C06Touch
+import SigmaVerif.Lemmas.C06Date
+import SigmaVerif.Lemmas.C06Sem
+import SigmaVerif.Lemmas.C06Alias
+import SigmaVerif.Lemmas.C06SemDet
+import SigmaVerif.Lemmas.C06Scalar
+/-!
+# C06 — serialising a rule and loading it again preserves its meaning
+
+Property theorems about the model `SigmaVerif.Ser` (`Model/Ser.lean`) of `from_mapping` / `to_plain`,
+`from_definition` / `to_plain`, `SigmaDetections.from_dict` / `to_dict`, the effect of the
+transformations on `original_value`, and the rule dates.  Helper lemmas and the side conditions
+(`valsOk`, `Good`, `GoodDoc`, `plainFaithful`, `hasDisabled`) are in `Lemmas/C06*.lean`.
+
+What is proved, for every document (no bound on sizes or nesting):
+* an item, a detection, a detection section that loaded is written, and what is written loads to the
+  *same object* (hence is written identically again, and means the same to any consumer of the object);
+* the exact classes for which this fails in the code are excluded by hypotheses and recorded as witness
+  theorems (findings D3, D62–D65 of the code; D60, D61, D67, D68 for transformed rules);
+* an item on which `disable_conversion_to_plain()` was called makes every enclosing `to_plain` fail;
+* both date spellings read to the same date, the ISO spelling is a fixed point.
+* the specification's reading (`Rule.itemBE` / `Rule.detBE`, `Spec/Rule.lean`) of the written document
+  equals that of the original one (`item_meaning_preserved`, `detection_meaning_preserved`).
+* a top-level list of definitions that are all written as bare scalars (excluded from `Good`) is
+  written as the list of the scalars, which loads as ONE keyword item: another object, same meaning,
+  dict fixed point iff it has at least two elements (`scalar_list_roundtrip`).
+Partial: such a list *nested* inside another list of definitions is covered by witnesses only.
+-/
 namespace SigmaVerif.Props.C06
-open SigmaVerif.SStr
+open SigmaVerif.SStr SigmaVerif.SStrSpec SigmaVerif.Mods SigmaVerif.Ser
+open SigmaVerif.Rule (PV splitOn pvToVal)
+
+/-- a fixed environment for the concrete witnesses -/
+def env0 : Env := { w := fun _ => false }
+
+/-! ## 0. strings -/
 
 /-- the plain form of a wildcard-free, backslash-free string is the string itself and re-parses
 to the identical value (the base case every dict round trip rests on; the general statement is
@@ -22,5 +58,300 @@ theorem plain_roundtrip_simple (s : List Char) (h : ∀ c ∈ s, c ≠ '\\' ∧ 
         parse, parseAux, e3, Bool.false_and]
       rw [ih1] at ih2
       simpa [parse, ih1] using ih2
+
+/-! ## 1. one detection item -/
+
+/-- **Item round trip.**  For every key and value that `from_mapping` accepts: `to_plain` succeeds and
+writes `plainOf k v` (the field, the canonical modifier identifiers, the original values re-serialised,
+a one element list as its element); loading that gives the *same object* — same field, modifier
+classes, applied values, linking, negation and `original_value` — and therefore the same plain form
+again (fixed point from the first write on).  The reload needs the side condition `valsOk` on string
+values forced by finding D3 (no literal backslash directly before a wildcard, an escaped wildcard or a
+backslash; strings under `re` are exempt because they are written raw). -/
+theorem item_roundtrip (env : Env) (k : Str) (v : PVals) (it : Ser.Item)
+    (h : fromMapping env k v = .ok it) :
+    toPlainItem it = .ok (plainOf k v) ∧
+    (valsOk k v = true →
+      fromIPlain env (plainOf k v) = .ok it ∧
+      ∀ it', fromIPlain env (plainOf k v) = .ok it' → toPlainItem it' = .ok (plainOf k v)) := by
+  obtain ⟨h1, h2⟩ := item_plain_reload env k v it h
+  refine ⟨h1, fun hv => ⟨h2 hv, ?_⟩⟩
+  intro it' h'
+  rw [h2 hv] at h'
+  cases h'
+  exact h1
+
+example : valsOk "f|contains".toList (.many [.str "a*b".toList, .str "c\\d".toList, .num ['1']]) = true := by decide
+example : ∃ it, fromMapping env0 "f|contains".toList (.one (.str "a*b".toList)) = .ok it := ⟨_, rfl⟩
+
+/-- `x` and `[x]` load to the same object; `to_plain` writes `x`. -/
+theorem one_many_same_object (env : Env) (k : Str) (x : PV) :
+    fromMapping env k (.one x) = fromMapping env k (.many [x]) := rfl
+
+/-- **Finding D3 at item level**: without the side condition the reload is another object.  The value
+`a\\*` (a, backslash, backslash, star: a literal backslash followed by a wildcard) is written as `a\*`,
+which loads as `a` followed by a literal star. -/
+theorem item_roundtrip_fails_backslash_wildcard :
+    valsOk ['f'] (.one (.str ['a', '\\', '\\', '*'])) = false ∧
+    fromMapping env0 ['f'] (.one (.str ['a', '\\', '\\', '*'])) =
+      .ok ⟨some ['f'], [], [.str false [.lit 'a', .lit '\\', .star]], false, false,
+           some [.str false [.lit 'a', .lit '\\', .star]]⟩ ∧
+    plainOf ['f'] (.one (.str ['a', '\\', '\\', '*'])) = .keyed ['f'] (.one (.str ['a', '\\', '*'])) ∧
+    fromIPlain env0 (.keyed ['f'] (.one (.str ['a', '\\', '*']))) =
+      .ok ⟨some ['f'], [], [.str false [.lit 'a', .lit '*']], false, false,
+           some [.str false [.lit 'a', .lit '*']]⟩ :=
+  ⟨by decide, rfl, by decide, rfl⟩
+
+/-! ## 2. detections and the detection section -/
+
+/-- **Detection round trip** (induction over the detection tree: maps, keyword lists, lists of
+definitions, nested to any depth).  For every `Good` definition that loads: `to_plain` succeeds, the
+written definition loads to the *same object*, and is therefore written identically again.  (`Good`:
+D3 side condition on strings; no single-null keyword detection; the empty key only alone in a map;
+keys distinct in canonical spelling; no list consisting only of definitions written as bare scalars.) -/
+theorem detection_roundtrip (env : Env) (p : PDef) (d : Det) (hg : Good p = true)
+    (h : fromDef env p = .ok d) :
+    ∃ q, toPlainDet d = .ok q ∧ fromDef env q = .ok d ∧
+      ∀ d', fromDef env q = .ok d' → toPlainDet d' = .ok q := by
+  obtain ⟨q, h1, h2, _⟩ := det_rt env p d hg h
+  refine ⟨q, h1, h2, ?_⟩
+  intro d' h'
+  rw [h2] at h'
+  cases h'
+  exact h1
+
+example : Good (.list [.map [("f|re|i".toList, .one (.str "a.*".toList)), ("g".toList, .many [.num ['1'], .null])],
+                       .list [.val (.str "kw".toList), .val (.num ['2'])],
+                       .list [.list [.val (.str "x".toList)], .map [("".toList, .many [.str "k1".toList, .str "k2".toList])]]]) = true := by
+  decide
+
+/-- **Detection section round trip**: named detections and the condition list.  A single condition is
+written as a scalar, several as a list; `c` and `[c]` load alike. -/
+theorem detections_roundtrip (env : Env) (p : PDoc) (D : Detections) (hg : GoodDoc p = true)
+    (h : loadDoc env p = .ok D) :
+    ∃ p', serDoc D = .ok p' ∧ loadDoc env p' = .ok D ∧
+      ∀ D', loadDoc env p' = .ok D' → serDoc D' = .ok p' := by
+  obtain ⟨p', h1, h2⟩ := doc_rt env p D hg h
+  refine ⟨p', h1, h2, ?_⟩
+  intro D' h'
+  rw [h2] at h'
+  cases h'
+  exact h1
+
+/-- the condition spelling: one condition is a scalar, `[c]` is written as `c` -/
+theorem single_condition_scalar (d : List (Str × Det)) (c : Str) (ps : List (Str × PDef))
+    (h : mapNamed toPlainDet d = .ok ps) :
+    serDoc { dets := d, conds := [c] } = .ok { dets := ps, cond := .one c } := by
+  simp only [serDoc, h]
+
+/-! ### the excluded classes, as witnesses (the model records the findings) -/
+
+/-- D62: a map with the empty key next to another key loads, `to_plain` refuses ("mixed types") -/
+theorem mixed_empty_key_refused :
+    ∃ d, fromDef env0 (.map [([], .one (.str ['x'])), (['f'], .one (.str ['y']))]) = .ok d ∧
+      toPlainDet d = .error .refused := ⟨_, rfl, rfl⟩
+
+/-- D63: a single-null keyword detection loads, `to_plain` drops the `None` and fails "empty" -/
+theorem null_keyword_empty :
+    ∃ d, fromDef env0 (.val .null) = .ok d ∧ toPlainDet d = .error .empty := ⟨_, rfl, rfl⟩
+
+/-- D64: two alias spellings of one key, one of them with a value list: the merge loop refuses … -/
+theorem alias_keys_refused :
+    ∃ d, fromDef env0 (.map [("f|re|i".toList, .many [.str ['a'], .str ['c']]),
+                             ("f|re|ignorecase".toList, .one (.str ['b']))]) = .ok d ∧
+      toPlainDet d = .error .refused := ⟨_, rfl, rfl⟩
+
+/-- … with scalars the two items are fused into one `|all` item (another object, same meaning) -/
+theorem alias_keys_fused :
+    ∃ d, fromDef env0 (.map [("f|re|i".toList, .one (.str ['a'])),
+                             ("f|re|ignorecase".toList, .one (.str ['b']))]) = .ok d ∧
+      toPlainDet d = .ok (.map [("f|re|ignorecase|all".toList, .many [.str ['a'], .str ['b']])]) :=
+  ⟨_, rfl, rfl⟩
+
+/-- D65: `[[a]]` is written `[a]`, which loads as one keyword item and is written `a`: the dict form
+settles only with the second write -/
+theorem singleton_list_two_writes :
+    ∃ d d', fromDef env0 (.list [.list [.val (.str ['a'])]]) = .ok d ∧
+      toPlainDet d = .ok (.list [.val (.str ['a'])]) ∧
+      fromDef env0 (.list [.val (.str ['a'])]) = .ok d' ∧
+      toPlainDet d' = .ok (.val (.str ['a'])) := ⟨_, _, rfl, rfl, rfl, rfl⟩
+
+/-- a list of single keyword definitions is written as a list of scalars: a fixed point of the dict
+form, but the reload is ONE item with two values instead of two detections -/
+theorem scalar_list_other_object :
+    ∃ i1 i2 j, fromDef env0 (.list [.list [.val (.str ['a'])], .list [.val (.str ['b'])]])
+        = .ok (.node [.node [.item i1] false, .node [.item i2] false] true) ∧
+      toPlainDet (.node [.node [.item i1] false, .node [.item i2] false] true)
+        = .ok (.list [.val (.str ['a']), .val (.str ['b'])]) ∧
+      fromDef env0 (.list [.val (.str ['a']), .val (.str ['b'])]) = .ok (.node [.item j] false) ∧
+      toPlainDet (.node [.item j] false) = .ok (.list [.val (.str ['a']), .val (.str ['b'])]) :=
+  ⟨_, _, _, rfl, rfl, rfl, rfl⟩
+
+/-- **Lists of scalar-written definitions** (the class `Good` excludes: `[[a],[b]]`, `[{"": a}, b]` …).
+The list loads (`d`), is written as the list of its scalars, that list loads as one keyword item `j`
+holding all values — another object, but with the same meaning (`detObjBE`) — and from two elements on
+the dict form is a fixed point; with one element the second write collapses `[a]` to `a` (D65,
+`singleton_list_two_writes`). -/
+theorem scalar_list_roundtrip (cx : Rule.Ctx) (es : List PDef) (hnv : es.all PDef.isVal = false)
+    (hs : es.all scalarish = true) (hg : GoodL es = true) :
+    ∃ (d : Det) (vs : List PV) (j : Ser.Item),
+      fromDef cx.env (.list es) = .ok d ∧
+      toPlainDet d = .ok (.list (vs.map .val)) ∧
+      fromDef cx.env (.list (vs.map .val)) = .ok (.node [.item j] false) ∧
+      detObjBE cx (.node [.item j] false) = detObjBE cx d ∧
+      (2 ≤ es.length → toPlainDet (.node [.item j] false) = .ok (.list (vs.map .val))) :=
+  scalar_list_rt cx es hnv hs hg
+
+example : ([PDef.list [.val (.str ['a'])], .map [([], .one (.str ['b']))]]).all PDef.isVal = false ∧
+    ([PDef.list [.val (.str ['a'])], .map [([], .one (.str ['b']))]]).all scalarish = true ∧
+    GoodL [PDef.list [.val (.str ['a'])], .map [([], .one (.str ['b']))]] = true := by decide
+
+/-! ## 3. items changed by a pipeline -/
+
+/-- **A touched item refuses.**  After `disable_conversion_to_plain()` (every transformation that
+returns a replaced item; value transformations on items with modifiers; field mappings that replace
+the value list) `to_plain` of the item is a Sigma error whatever the new values are … -/
+theorem touched_refuses (vs : List Val) (it : Ser.Item) :
+    toPlainItem (disable vs it) = .error .refused :=
+  toPlainItem_disabled _ rfl
+
+/-- … and so is `to_plain` of every detection that contains such an item, at any depth: the
+serialisation fails rather than emitting a dict with another meaning. -/
+theorem touched_detection_refuses (d : Det) (h : hasDisabled d = true) : ∀ q, toPlainDet d ≠ .ok q :=
+  toPlainDet_disabled d h
+
+example : hasDisabled (.node [.node [.item ⟨some ['g'], [], [], false, false, some []⟩,
+    .item (disable [] ⟨some ['f'], [], [], false, false, some []⟩)] true] false) = true := by decide
+
+/-- **Untouched items are unaffected**: the plain form of an item depends on its field, modifier
+classes and `original_value` only — changing `value`, linking or negation of an item that keeps its
+`original_value` changes nothing in what is written (so what is written is the *original* meaning). -/
+theorem untouched_unaffected (it : Ser.Item) (vs : List Val) (l n : Bool) :
+    toPlainItem { it with value := vs, linkAnd := l, negated := n } = toPlainItem it := rfl
+
+/-- A one-to-one field mapping (`rename`) keeps the item serialisable and faithful: what is written
+loads to the renamed item, provided the new name can be a key (non-empty, no `|`). -/
+theorem rename_faithful (env : Env) (k : Str) (v : PVals) (it : Ser.Item) (f' : Str)
+    (h : fromMapping env k v = .ok it) (hfield : it.field.isSome = true)
+    (hf1 : f'.isEmpty = false) (hf2 : '|' ∉ f') (hv : valsOk k v = true) :
+    ∃ p, toPlainItem (rename f' it) = .ok p ∧ fromIPlain env p = .ok (rename f' it) :=
+  rename_reload env k v it f' h hfield hf1 hf2 hv
+
+/-- D67: a new name containing `|` is written as a key that is split differently on reload -/
+theorem rename_bar_unfaithful :
+    ∃ it it', fromMapping env0 ['f'] (.one (.str ['x'])) = .ok it ∧
+      toPlainItem (rename "a|contains".toList it) = .ok (.keyed "a|contains".toList (.one (.str ['x']))) ∧
+      fromMapping env0 "a|contains".toList (.one (.str ['x'])) = .ok it' ∧
+      (rename "a|contains".toList it).field = some "a|contains".toList ∧ it'.field = some ['a'] ∧
+      it'.value = [.str false [.star, .lit 'x', .star]] := ⟨_, _, rfl, rfl, rfl, rfl, rfl, rfl⟩
+
+/-- A value transformation on an item without modifiers (`resync`: `original_value` := the new
+values) keeps the item serialisable and faithful, provided the new values are plain strings (uncased,
+no placeholder, D3 side condition), numbers, booleans or null. -/
+theorem resync_faithful (env : Env) (it : Ser.Item) (vs : List Val) (f : Str)
+    (hm : it.mods = []) (hfield : it.field = if f.isEmpty then none else some f) (hf : '|' ∉ f)
+    (hl : it.linkAnd = false) (hn : it.negated = false)
+    (hvs : ∀ v ∈ vs, plainFaithful v = true) :
+    ∃ p, toPlainItem (resync vs it) = .ok p ∧ fromIPlain env p = .ok (resync vs it) :=
+  resync_reload env it vs f hm hfield hf hl hn hvs
+
+/-- D61: … and it is unfaithful for other value types: after the `regex` transformation the
+regular expression is written as a plain string and loads as a string match -/
+theorem resync_regex_unfaithful :
+    ∃ it', toPlainItem (resync [.re "[aA]".toList false false false] ⟨some ['f'], [], [], false, false, none⟩)
+        = .ok (.keyed ['f'] (.one (.str "[aA]".toList))) ∧
+      fromMapping env0 ['f'] (.one (.str "[aA]".toList)) = .ok it' ∧
+      it'.value = [.str false ("[aA]".toList.map .lit)] := ⟨_, rfl, rfl, rfl⟩
+
+/-- D60: a one-to-many field mapping (`split`) copies the item with the *modified* values as
+`original_value` while the modifiers stay: `f|base64: a` mapped to `g`, `h` is written as
+`g|base64: YQ==`, whose reload encodes a second time -/
+theorem split_reapplies_modifiers :
+    ∃ it i1 i2, fromMapping env0 "f|base64".toList (.one (.str ['a'])) = .ok it ∧
+      it.value = [.str false ("YQ==".toList.map .lit)] ∧
+      toPlainDet (split [['g'], ['h']] it) =
+        .ok (.list [.map [("g|base64".toList, .one (.str "YQ==".toList))],
+                    .map [("h|base64".toList, .one (.str "YQ==".toList))]]) ∧
+      fromDef env0 (.list [.map [("g|base64".toList, .one (.str "YQ==".toList))],
+                           .map [("h|base64".toList, .one (.str "YQ==".toList))]])
+        = .ok (.node [.node [.item i1] false, .node [.item i2] false] true) ∧
+      i1.value = [.str false ("WVE9PQ==".toList.map .lit)] := ⟨_, _, _, rfl, rfl, rfl, rfl, rfl⟩
+
+/-- D68: a detection whose children are all detections is written as a list whatever its linking: an
+AND-linked one (all items of a map replaced by sub-detections) loads back OR-linked -/
+theorem and_of_detections_written_as_list (a b : Det) (pa pb : PDef)
+    (ha : toPlainDet a = .ok pa) (hb : toPlainDet b = .ok pb) (na : a.isItem = false) (nb : b.isItem = false)
+    (hna : isNone pa = false) (hnb : isNone pb = false) :
+    toPlainDet (.node [a, b] false) = .ok (.list [pa, pb]) ∧
+    toPlainDet (.node [a, b] true) = .ok (.list [pa, pb]) := by
+  constructor <;>
+  · rw [toPlainDet]
+    simp [na, nb, toPlainDets, ha, hb, hna, hnb, combine]
+
+/-! ## 4. dates -/
+
+/-- **Date round trip.**  For every valid date in the accepted range (years 1000–3999): the ISO
+spelling `yyyy-mm-dd` that `to_dict` writes reads back to the same date, … -/
+theorem date_roundtrip (t : Date) (hv : t.valid = true) (h1 : 1000 ≤ t.y) (h2 : t.y ≤ 3999) :
+    parseDate (printDate t) = some t :=
+  parse_printDate t hv h1 h2
+
+/-- … every `/` spelling of it (month and day zero-padded or not) reads to that same date, so after the
+first write the dict form is the ISO one and stays. -/
+theorem date_spellings_agree (padM padD : Bool) (t : Date) (hv : t.valid = true)
+    (h1 : 1000 ≤ t.y) (h2 : t.y ≤ 3999) :
+    parseDate (printSlash padM padD t) = parseDate (printDate t) := by
+  rw [parse_printSlash padM padD t hv h1 h2, parse_printDate t hv h1 h2]
+
+/-- what is written has the ISO shape -/
+theorem date_written_iso (t : Date) :
+    ∃ a b c d e f g h, printDate t = [dch a, dch b, dch c, dch d, '-', dch e, dch f, '-', dch g, dch h] :=
+  printDate_iso t
+
+example : parseDate "2024/1/5".toList = some ⟨2024, 1, 5⟩ ∧ printDate ⟨2024, 1, 5⟩ = "2024-01-05".toList ∧
+    parseDate "2024-1-5".toList = none ∧ parseDate "2024-02-30".toList = none ∧
+    parseDate "2024-02-29".toList = some ⟨2024, 2, 29⟩ := by decide
+
+/-! ## 5. meaning -/
+
+/-- **Meaning preservation (object level).**  Any consumer of the loaded object — the backend's
+conversion is one — sees the same thing before and after a write/load cycle, because the cycle gives
+back the same object: for every function `conv` of the detection object. -/
+theorem same_queries {α : Type} (conv : Det → α) (env : Env) (p : PDef) (d : Det)
+    (hg : Good p = true) (h : fromDef env p = .ok d) :
+    ∃ q, toPlainDet d = .ok q ∧ ∀ d', fromDef env q = .ok d' → conv d' = conv d := by
+  obtain ⟨q, h1, h2, _⟩ := detection_roundtrip env p d hg h
+  refine ⟨q, h1, ?_⟩
+  intro d' h'
+  rw [h2] at h'
+  cases h'
+  rfl
+
+/-- **Meaning preservation (specification level), items.**  For every loaded item (alias spellings of
+modifiers included): the specification's reading (`Rule.itemBE`, `Spec/Rule.lean`) of the original
+`key: value` is the meaning of the loaded object, and the specification's reading of what `to_plain`
+wrote is the same. -/
+theorem item_meaning_preserved (cx : Rule.Ctx) (k : Str) (v : PVals) (it : Ser.Item)
+    (h : fromMapping cx.env k v = .ok it) (hv : valsOk k v = true) :
+    specOf cx (plainOf k v) = Rule.itemBE cx (some k) v.toList ∧
+    Rule.itemBE cx (some k) v.toList = objBE cx it := by
+  refine ⟨?_, itemBE_eq_objBE_all cx k v it h⟩
+  rw [specOf_plainOf cx k v it h hv, itemBE_eq_objBE_all cx k v it h]
+
+/-- **Meaning preservation (specification level), detections.**  For every `Good` definition that
+loads, at any nesting depth (`n` is the fuel of the specification's reader, any bound of the nesting
+depth): the specification's reading (`Rule.detBE`) of the written definition equals that of the original
+one, and both are the meaning of the loaded object (`detObjBE`: a single child stands for itself,
+several are linked by `item_linking`). -/
+theorem detection_meaning_preserved (cx : Rule.Ctx) (p : PDef) (d : Det) (n : Nat) (hg : Good p = true)
+    (h : fromDef cx.env p = .ok d) (hn : pdepth p ≤ n) :
+    ∃ q, toPlainDet d = .ok q ∧
+      Rule.detBE cx n (toRuleDet q) = Rule.detBE cx n (toRuleDet p) ∧
+      Rule.detBE cx n (toRuleDet p) = detObjBE cx d := by
+  obtain ⟨q, h1, h2, _⟩ := det_rt cx.env p d hg h
+  have hq : pdepth q ≤ n := by rw [depth_eq cx.env q d h2, ← depth_eq cx.env p d h]; exact hn
+  exact ⟨q, h1, by rw [detBE_eq cx q d n h2 hq, detBE_eq cx p d n h hn], detBE_eq cx p d n h hn⟩
+
+example : pdepth (.list [.list [.val (.str ['a']), .map [(['f'], .one (.str ['x']))]], .val (.num ['1'])]) = 2 := by decide
 
 end SigmaVerif.Props.C06
